@@ -219,6 +219,14 @@ def rand_can_schema(rng):
                 tgt = rng.choice(others)
                 sigs.append({"name": tgt[0], "fields": [{"name": "mux_count", "value": {"i": rng.randint(1, min(8, 1 << sel[2]))}},
                                                         {"name": "mux_signal", "value": {"s": sel[0]}}]})
+                # a second group with ANOTHER selector in the same message
+                sel2s = [x for x in scal if x[0] not in (sel[0], tgt[0])]
+                oth2 = [x for x in others if x[0] != tgt[0] and all(x[0] != y[0] for y in sel2s[:1])]
+                if sel2s and oth2 and rng.random() < 0.5:
+                    sel2, tgt2 = sel2s[0], rng.choice(oth2)
+                    if tgt2[0] != sel2[0]:
+                        sigs.append({"name": tgt2[0], "fields": [{"name": "mux_count", "value": {"i": rng.randint(1, min(8, 1 << sel2[2]))}},
+                                                                 {"name": "mux_signal", "value": {"s": sel2[0]}}]})
         fid = rng.choice([0, 1, 10, 100, 2047, rng.randint(0, 2047)])
         while fid in used_ids:
             fid = rng.randint(0, 2047)
